@@ -213,7 +213,7 @@ package vm
 
 // resetForNewCode leaves no trace of an earlier run in the registers and tables of the VM.
 //@ func (*VirtualMachine).resetForNewCode
-//@ props C07
+//@ props C07 C11
 //@ requires vm != nil
 //@ invariant 1: vm.sp == -1 && vm.ip == 0 && vm.fp == 0 && vm.halt == 0 && vm.activeFrame == nil && vm.activeCode == nil && fresh(vm.loadedCode) && fresh(vm.modules) && 0 <= i && i <= 1024 && forall(k, 0, i, vm.stack[k] == nil)
 //@ invariant 2: vm.sp == -1 && vm.ip == 0 && vm.fp == 0 && vm.halt == 0 && vm.activeFrame == nil && vm.activeCode == nil && fresh(vm.loadedCode) && fresh(vm.modules) && forall(k, 0, 1024, vm.stack[k] == nil)
@@ -221,6 +221,9 @@ package vm
 //@ ensures[C07.reset.registers] vm.sp == -1 && vm.ip == 0 && vm.fp == 0 && vm.halt == 0 && vm.activeFrame == nil && vm.activeCode == nil
 //@ ensures[C07.reset.tables] fresh(vm.loadedCode) && fresh(vm.modules) && forallA(k, string, !haskey(vm.modules, k))
 //@ ensures[C07.reset.stack] forall(k, 0, 1024, vm.stack[k] == nil)
+// C11: the import cache is empty at the start of every run: a module that an earlier run's configuration allowed is
+// not handed to a later run whose configuration removed it (seed C11d kept the builtin modules in the cache).
+//@ ensures[C11.reset.modules] fresh(vm.modules) && forallA(k, string, !haskey(vm.modules, k))
 //@ scan[C07.halt.writers] C07 fieldwriters VirtualMachine.halt: start resetForNewCode
 //@ scan[C07.running.writers] C07 fieldwriters VirtualMachine.running: start stop Clone
 //@ scan[C07.startcount.writers] C07 fieldwriters VirtualMachine.startCount: start
@@ -285,6 +288,18 @@ package vm
 // itself (uncopied) to closure cells. The storage of one activation must therefore never be reused for the next:
 // ActivateCode gives a function with more than DefaultFrameLocals locals a freshly allocated slice, all nil, and
 // otherwise clears the frame's inline storage and drops the reference to any earlier slice.
+// C01 (defer): deferred calls run last-in-first-out. The frame keeps them in execution order - Defer puts the new
+// call in front - and the only reader (the deferred closure of callFunction) walks the list once from the front.
+// Nothing but Defer and ActivateCode may write the list: a deferred script function re-activates the very frame
+// slot whose list is being walked (seed C01e popped entries off the field while walking it and lost calls).
+//@ func (*frame).Defer
+//@ props C01
+//@ requires f != nil
+//@ modifies f.defers
+//@ ensures[C01.defer.front] len(f.defers) == old(len(f.defers)) + 1 && f.defers[0] == p
+//@ ensures[C01.defer.rest] forall(k, 0, old(len(f.defers)), f.defers[k + 1] == old(f.defers[k]))
+//@ scan[C01.defers.writers] C01 fieldwriters frame.defers: Defer ActivateCode
+
 //@ func (*frame).ActivateCode
 //@ props C01
 //@ requires f != nil && code != nil
@@ -293,4 +308,5 @@ package vm
 //@ ensures[C01.frame.locals.fresh] f.localsCount > DefaultFrameLocals ==> fresh(f.extendedLocals) && len(f.extendedLocals) == int(f.localsCount) && same(f.locals, f.extendedLocals) && forall(k, 0, len(f.locals), f.locals[k] == nil)
 //@ ensures[C01.frame.locals.inline] f.localsCount <= DefaultFrameLocals ==> len(f.extendedLocals) == 0 && cap(f.extendedLocals) == 0
 //@ ensures[C01.frame.captured.reset] len(f.capturedLocals) == 0 && cap(f.capturedLocals) == 0
+//@ ensures[C01.frame.defers.reset] len(f.defers) == 0
 
